@@ -425,7 +425,7 @@ func (w *World) Crash(p *Proc) {
 
 // Payload builds a payload of the given class; class>=2 payloads start with a unique marker.
 func (w *World) Payload(class int) []byte {
-	sizes := []int{0, 1, 16, 64, 4096, 1 << 20}
+	sizes := []int{0, 1, 16, 64, 4096, 1 << 20, 70000}
 	n := sizes[class%len(sizes)]
 	b := make([]byte, n)
 	w.prng.Fill(b)
